@@ -717,6 +717,10 @@ func (c *Ctx) checkStopOnce() {
 				if e.Kind == EvCall && e.callName() == "(*sync.Once).Do" && e.Args[0].isFieldAddrOf(once) {
 					onceAt, onceDepth = i, e.Depth
 				}
+				if e.Kind == EvCall && e.callName() == "(*sync.Once).Do" && !e.Args[0].isFieldAddrOf(once) && ok {
+					ok = false
+					c.violated("C14.stop-once", cons, e.Pos, "Stop runs a sync.Once other than stopOnce ("+c.short(e.Args[0].Key())+"): if that is the Once that starts the lane, a Stop that gets ahead of Run turns Run into a no-op — calls accepted before Stop stay queued forever while the lane is reported as terminated", c.witness(t, i)...)
+				}
 				isStopEffect := (e.Kind == EvCall && e.Method != nil && e.Method.Name() == "Close" && len(e.Args) == 1) || e.Kind == EvClose
 				if isStopEffect {
 					found = true
